@@ -91,6 +91,8 @@ type Explorer struct {
 	Deadline time.Time
 	IsKnown  func(v Viol) bool
 	MaxFound int
+	// DivergenceInv: when non-empty, a replayed transaction that no longer succeeds is recorded as a violation of this invariant
+	DivergenceInv string
 
 	mu      sync.Mutex
 	found   []Found
@@ -156,18 +158,31 @@ func applyAction(w *World, st State, a Action) (State, TxResult) {
 	return st, res
 }
 
-// materialise replays the preamble and a history on a fresh branch.
+// materialise replays the preamble and a history on a fresh branch. Every replayed transaction succeeded when it was
+// first executed (on this or another application instance, from the same state); if it fails now, the same transaction on
+// the same state gave two different results. For the determinism property that IS a violation; elsewhere it is a harness error.
 func (e *Explorer) materialise(w *World, hist []int) State {
 	st := w.Initial()
+	diverged := func(what string, a Action, r TxResult) {
+		msg := fmt.Sprintf("scenario %s: %s %s succeeded before but fails when replayed on the same state in this process: %s", e.Sc.Name, what, a.Name, r.Err)
+		if e.DivergenceInv == "" {
+			panic(msg)
+		}
+		e.record(Viol{e.DivergenceInv, "replay-diverged:" + a.Kind, msg}, hist, -1)
+	}
 	for _, a := range e.Sc.Preamble {
 		var r TxResult
 		st, r = applyAction(w, st, a)
 		if !r.OK {
-			panic(fmt.Sprintf("scenario %s: preamble action %s failed: %s", e.Sc.Name, a.Name, r.Err))
+			diverged("preamble action", a, r)
 		}
 	}
 	for _, i := range hist {
-		st, _ = applyAction(w, st, e.Sc.Alphabet[i])
+		var r TxResult
+		st, r = applyAction(w, st, e.Sc.Alphabet[i])
+		if !r.OK {
+			diverged("history step", e.Sc.Alphabet[i], r)
+		}
 	}
 	return st
 }
